@@ -98,6 +98,23 @@ def _extras(p: T.Dict[str, T.Any], root: Path, rnd: random.Random) -> T.Dict[str
           "configure_file(input: 'c06_tmpl.h.in', output: 'c06_cmd.txt', command: [cp_prog, '@INPUT@', '@OUTPUT@'])"]
     kept.update({'c06_config.h': 'configuration', 'c06_tmpl.h': 'template', 'c06_conf.json': 'json',
                  'c06_dict.h': 'configuration', 'c06_cap.txt': 'capture'})
+    # large configure-time outputs (well above any I/O block size: a writer that compares old and new content
+    # block-wise must get the later blocks right too): ~200 KB template, a header of 3000 keys, a large copy, a
+    # large captured output
+    big = ''.join(f'/* line {i:05d} @{keys[i % len(keys)]}@ ' + 'x' * 40 + ' */\n' for i in range(2600))
+    big += ''.join(f'#mesondefine {k}\n' for k in sorted(keys))
+    (root / 'c06_big.h.in').write_text(big)
+    (root / 'c06_bigcopy.txt.in').write_text(''.join(f'{i:07d} ' + 'payload ' * 10 + '\n' for i in range(2400)))
+    L += ["c06_bigcd = configuration_data()",
+          "foreach c06_i : range(3000)",
+          "  c06_bigcd.set('C06_KEY_@0@'.format(c06_i), c06_i, description: 'generated key number @0@'.format(c06_i))",
+          "endforeach",
+          "configure_file(output: 'c06_bigkeys.h', configuration: c06_bigcd)",
+          "configure_file(input: 'c06_big.h.in', output: 'c06_big.h', configuration: c06_cd)",
+          "configure_file(input: 'c06_bigcopy.txt.in', output: 'c06_bigcopy.txt', copy: true)",
+          "configure_file(input: 'c06_big.h.in', output: 'c06_bigcap.txt', command: [c06_cat, '@INPUT@'], capture: true)"]
+    kept.update({'c06_bigkeys.h': 'configuration-large', 'c06_big.h': 'template-large', 'c06_bigcopy.txt': 'copy-large',
+                 'c06_bigcap.txt': 'capture-large'})
     # several wraps / subprojects (directory listing order of subprojects/)
     order = list(SUBS)
     rnd.shuffle(order)
